@@ -8,8 +8,8 @@
 //@typemap /&QuerySet<P::Point>/ => &BTreeSet<(String, (String, Pt))>
 //@typemap /LabeledPolynomial<_, _>/ => LabeledPolynomial
 //@enum file=poly-commit/src/error.rs name=Error
-//@use pcenv
-//@spec batch_spec
+//@use pctypes pcenv
+//@spec group_spec batch_spec
 #[verifier::external_body] pub struct CK { _x: u8 }
 #[verifier::external_body] pub struct St { _x: u8 }
 // the scheme's per-point prover: proof and resulting sponge state are deterministic functions of its inputs and the RNG state
